@@ -345,3 +345,106 @@ func init() {
 			return out
 		}})
 }
+
+// OUTALIAS — an output container is not made to refer to an input operand.
+//
+// `opOut[i] = ctIn` ("the rotation by zero needs no copy") leaves the caller's pre-allocated receiver untouched and
+// hands back the input itself: the receiver the caller holds still encrypts what it did before, and an in-place
+// operation on the returned entry changes the input ciphertext.
+//
+// Rule: in every function with an output parameter that is a map or slice of element pointers (named …Out/out), no
+// element of it is assigned an input operand parameter (a pointer parameter that is not an output), directly or
+// through a local whose only definition is that parameter.
+func scanOutAlias(c *core.Ctx) []ob {
+	var out []ob
+	n := 0
+	c.FuncDecls(func(pk *packages.Package, file *ast.File, fd *ast.FuncDecl) {
+		if fd.Body == nil || fileIsTestSupport(c.Program, fd.Pos()) || inExamples(pk) {
+			return
+		}
+		info := pk.TypesInfo
+		fn, _ := info.Defs[fd.Name].(*types.Func)
+		if fn == nil {
+			return
+		}
+		sig := fn.Type().(*types.Signature)
+		outs := map[types.Object]bool{}
+		ins := map[types.Object]bool{}
+		for i := 0; i < sig.Params().Len(); i++ {
+			p := sig.Params().At(i)
+			switch u := p.Type().Underlying().(type) {
+			case *types.Map:
+				if _, ok := u.Elem().Underlying().(*types.Pointer); ok && isOutParamName(p.Name()) {
+					outs[p] = true
+				}
+			case *types.Slice:
+				if _, ok := u.Elem().Underlying().(*types.Pointer); ok && isOutParamName(p.Name()) {
+					outs[p] = true
+				}
+			case *types.Pointer:
+				if !isOutParamName(p.Name()) && isMetaCarrier(p.Type()) {
+					ins[p] = true
+				}
+			}
+		}
+		if len(outs) == 0 {
+			return
+		}
+		n++
+		fkey := core.FuncKey(pk, fd)
+		aliases := localAliasesMode(info, fd, false)
+		var bad ast.Node
+		ast.Inspect(fd.Body, func(x ast.Node) bool {
+			as, ok := x.(*ast.AssignStmt)
+			if !ok || len(as.Lhs) != len(as.Rhs) || bad != nil {
+				return bad == nil
+			}
+			for i, l := range as.Lhs {
+				ie, ok := unparen(l).(*ast.IndexExpr)
+				if !ok {
+					continue
+				}
+				id, ok := unparen(ie.X).(*ast.Ident)
+				if !ok || !outs[info.Uses[id]] {
+					continue
+				}
+				r := unparen(as.Rhs[i])
+				if rid, ok := r.(*ast.Ident); ok {
+					o := info.Uses[rid]
+					if ins[o] {
+						bad = as
+					} else if ds, ok := aliases[o]; ok && len(ds) == 1 {
+						if d, ok := unparen(ds[0]).(*ast.Ident); ok && ins[info.Uses[d]] {
+							bad = as
+						}
+					}
+				}
+			}
+			return true
+		})
+		key := "OUTALIAS:" + fkey
+		props := append(metaProps(fkey), "C09")
+		if bad != nil {
+			out = append(out, withProps(violOb("OUTALIAS", key, c.Rel(bad.Pos()), fmt.Sprintf("%s stores an input operand into its output container (%s): the receiver the caller allocated is left as it was and the returned entry is the input itself", fkey, exprString(bad.(*ast.AssignStmt).Lhs[0])+" = "+exprString(bad.(*ast.AssignStmt).Rhs[0]))), props...))
+		} else {
+			out = append(out, withProps(okOb("OUTALIAS", key, c.Rel(fd.Pos()), "no element of the output container is assigned an input operand", true), props...))
+		}
+	})
+	c.Stats["outalias_fns"] = n
+	return out
+}
+
+func init() {
+	core.Register(&core.Rule{Name: "OUTALIAS", Props: []string{"C09", "C11", "C12", "C04", "C06", "C05"},
+		Doc: "in a function with an output map/slice of element pointers, no element of that container is assigned an input operand parameter (directly or through a single-definition local)",
+		Run: func(c *core.Ctx) []ob {
+			out := scanOutAlias(c)
+			for _, o := range control(c, "OUTALIAS", scanOutAlias, "(fixEvaluator).RotateMany") {
+				out = append(out, withProps(o, "C09", "C11"))
+			}
+			for _, o := range core.Floor("OUTALIAS", nil, "functions with an output container of elements", c.Stats["outalias_fns"], 3) {
+				out = append(out, withProps(o, "C09", "C11"))
+			}
+			return out
+		}})
+}
